@@ -208,6 +208,83 @@ Proof.
 Qed.
 
 (* ------------------------------------------------------------------ *)
+(* between two calls the decoder is never in a phase it leaves silently  *)
+(* ------------------------------------------------------------------ *)
+Definition settledb (ph : dphase) : bool :=
+  match ph with DRunOut _ 0 _ | DLit 0 => false | _ => true end.
+Definition settled (ph : dphase) : Prop := settledb ph = true.
+
+Definition dmeasure (ph : dphase) (inp : list N) (ib ob : nat) : nat :=
+  2 * (Nat.min (length inp) ib + ob) + (if settledb ph then 0 else 1).
+
+Lemma settle : forall fuel ph s inp ib ob cn rout ph' s' cn' rout',
+  dmeasure ph inp ib ob < fuel ->
+  dec_loop fuel ph s inp ib ob cn rout = (ph', s', cn', rout', DsMore) -> settled ph'.
+Proof.
+  induction fuel as [|f IH]; intros ph s inp ib ob cn rout ph' s' cn' rout' HM H; [lia|].
+  unfold dmeasure in *.
+  destruct ph; cbn [dec_loop] in H; cbn [settledb] in HM;
+    try (destruct inp as [|c inp]; [injection H as <- <- <- <-; reflexivity|];
+         destruct (ib =? 0) eqn:Hib; [injection H as <- <- <- <-; reflexivity|]; apply Nat.eqb_neq in Hib;
+         simpl length in HM;
+         repeat match type of H with
+                | (if ?b then _ else _) = _ => destruct b
+                end;
+         try discriminate;
+         (eapply IH; [|exact H]);
+         repeat match goal with |- context [settledb ?x] => destruct (settledb x) end; lia).
+  - (* DLit *)
+    destruct (k =? 0) eqn:Ek.
+    + apply Nat.eqb_eq in Ek. subst k. eapply IH; [|exact H]. cbn [settledb] in *. lia.
+    + apply Nat.eqb_neq in Ek.
+      assert (Hst : settled (DLit k)) by (destruct k; [congruence|reflexivity]).
+      destruct inp as [|c inp]; [injection H as <- <- <- <-; exact Hst|].
+      destruct ((ib =? 0) || (ob =? 0)) eqn:Hb; [injection H as <- <- <- <-; exact Hst|].
+      apply orb_false_iff in Hb. destruct Hb as [Hib Hob]. apply Nat.eqb_neq in Hib, Hob.
+      eapply IH; [|exact H]. simpl length in *.
+      destruct (settledb (DLit (k - 1))); destruct (settledb (DLit k)); lia.
+  - (* DRunOut *)
+    destruct (k =? 0) eqn:Ek.
+    + apply Nat.eqb_eq in Ek. subst k. destruct fin; [discriminate|].
+      eapply IH; [|exact H]. cbn [settledb] in *. lia.
+    + apply Nat.eqb_neq in Ek.
+      assert (Hst : settled (DRunOut fin k b)) by (destruct k; [congruence|reflexivity]).
+      destruct (ob =? 0) eqn:Hob; [injection H as <- <- <- <-; exact Hst|]. apply Nat.eqb_neq in Hob.
+      eapply IH; [|exact H].
+      destruct (settledb (DRunOut fin (k - Nat.min k ob) b)); destruct (settledb (DRunOut fin k b)); lia.
+Qed.
+
+(* a member never ends in a call that did nothing *)
+Lemma end_progress f ph s inp ib ob cn rout ph' s' cn' rout' :
+  settled ph -> s < 256 ->
+  dec_loop (S f) ph s inp ib ob cn rout = (ph', s', cn', rout', DsEnd) ->
+  cn < cn' \/ length rout < length rout'.
+Proof.
+  intros Hst Hs H.
+  destruct ph; cbn [dec_loop] in H;
+    try (destruct inp as [|c inp]; [discriminate|];
+         destruct (ib =? 0); [discriminate|];
+         repeat match type of H with
+                | (if ?b then _ else _) = _ => destruct b
+                end;
+         try discriminate;
+         first [injection H as <- <- <- <-; left; lia
+               |apply dec_loop_mono in H; [left; lia|assumption]]).
+  - (* DLit *)
+    destruct (k =? 0) eqn:Ek.
+    + apply Nat.eqb_eq in Ek. subst k. discriminate.
+    + destruct inp as [|c inp]; [discriminate|].
+      destruct ((ib =? 0) || (ob =? 0)); [discriminate|].
+      apply dec_loop_mono in H; [left; lia|apply add256_lt].
+  - (* DRunOut *)
+    destruct (k =? 0) eqn:Ek.
+    + apply Nat.eqb_eq in Ek. subst k. discriminate.
+    + apply Nat.eqb_neq in Ek. destruct (ob =? 0) eqn:Hob; [discriminate|]. apply Nat.eqb_neq in Hob.
+      apply dec_loop_mono in H; [|apply run_sum_lt]. right.
+      rewrite app_length, repeat_length in H. lia.
+Qed.
+
+(* ------------------------------------------------------------------ *)
 (* one call of the "library"                                           *)
 (* ------------------------------------------------------------------ *)
 Lemma lim_le k a : lim k a <= a.
@@ -223,24 +300,31 @@ Definition stat_of (st : tdst) (fl : flush) (stop : dstop) (c o : list N) : lsta
   | DsMore => if negb ((0 <? length c) || negb (nilb o)) || (d_finbuf st && is_full fl) then LBuf else LOk
   end.
 
-Lemma toy_dec_facts st inp cap fl : d_sum st < 256 ->
+Lemma toy_dec_facts st inp cap fl : d_sum st < 256 -> settled (d_ph st) ->
   exists c o t stop ph' s',
     inp = c ++ t /\ length c <= lim (d_maxin st) (length inp) /\ length o <= lim (d_maxout st) cap /\ s' < 256 /\
     Post stop (d_ph st) (d_sum st) c o ph' s' /\
     dec_loop (2 * (length inp + cap) + 4) (d_ph st) (d_sum st) inp
              (lim (d_maxin st) (length inp)) (lim (d_maxout st) cap) 0 [] = (ph', s', length c, rev o, stop) /\
+    (stop = DsMore -> settled ph') /\ (stop = DsEnd -> 0 < length c + length o) /\
     toy_dec_step st inp cap fl =
       mkL (length c) o (stat_of st fl stop c o)
           (mkTD ph' s' (d_mid st || (0 <? length c)) (d_maxin st) (d_maxout st) (d_finbuf st)).
 Proof.
-  intro Hs. unfold toy_dec_step.
+  intros Hs Hst. unfold toy_dec_step.
   pose proof (dec_loop_spec (2 * (length inp + cap) + 4) (d_ph st) (d_sum st) inp
                 (lim (d_maxin st) (length inp)) (lim (d_maxout st) cap) 0 [] Hs) as HS.
-  destruct (dec_loop _ _ _ _ _ _ _ _) as [[[[ph' s'] cn'] rout'] stop].
+  destruct (dec_loop _ _ _ _ _ _ _ _) as [[[[ph' s'] cn'] rout'] stop] eqn:HL.
   destruct HS as (c & o & t & E1 & E2 & E3 & L1 & L2 & L3 & HP).
-  exists c, o, t, stop, ph', s'. simpl in E2. subst cn' rout'. rewrite app_nil_r.
+  exists c, o, t, stop, ph', s'. simpl in E2. subst cn' rout'. rewrite app_nil_r in *.
   split; [assumption|]. split; [assumption|]. split; [assumption|]. split; [assumption|].
   split; [assumption|]. split; [reflexivity|].
+  split.
+  { intros ->. eapply settle; [|exact HL]. unfold dmeasure. rewrite Hst.
+    pose proof (lim_le (d_maxin st) (length inp)). pose proof (lim_le (d_maxout st) cap). lia. }
+  split.
+  { intros ->. replace (2 * (length inp + cap) + 4) with (S (2 * (length inp + cap) + 3)) in HL by lia.
+    apply end_progress in HL; auto. simpl in HL. rewrite rev_length in HL. lia. }
   rewrite rev_append_rev, app_nil_r, rev_involutive.
   destruct stop; reflexivity.
 Qed.
@@ -248,8 +332,13 @@ Qed.
 (* ------------------------------------------------------------------ *)
 (* the contract                                                        *)
 (* ------------------------------------------------------------------ *)
-Definition TRep (st : tdst) (fed del : list N) : Prop :=
-  d_sum st < 256 /\ (d_mid st = true <-> fed <> []) /\ Trans DMagic 0 fed del (d_ph st) (d_sum st).
+(* [wm]: also track the "total_in > 0" flag (needed by the gzip/xz/bzip2 drivers, which reset the
+   library at the end of a member; the zstd driver neither resets nor looks at the flag) *)
+Definition TRepG (wm : bool) (st : tdst) (fed del : list N) : Prop :=
+  d_sum st < 256 /\ settled (d_ph st) /\ (wm = true -> (d_mid st = true <-> fed <> [])) /\
+  Trans DMagic 0 fed del (d_ph st) (d_sum st).
+Definition TRep := TRepG true.
+Definition TRep0 := TRepG false.
 
 Lemma firstn_app_exact (c t : list N) : firstn (length c) (c ++ t) = c.
 Proof. rewrite firstn_app, Nat.sub_diag, firstn_all. simpl. apply app_nil_r. Qed.
@@ -273,33 +362,39 @@ Proof. intro H. inversion H. Qed.
 Lemma rest_nil_inv ph s p : Rest ph s [] p -> exists k b, ph = DRunOut true k b /\ p = repeat b k.
 Proof. intro H. inversion H; subst; eauto; exfalso; eapply rest_tag_nil; eauto. Qed.
 
-Theorem toy_dec_contract : dec_contract TMember tdst toy_dec TRep true.
+Theorem toy_dec_contract_g wm resets : (wm = true -> resets = true) ->
+  dec_contract TMember tdst toy_dec (TRepG wm) resets.
 Proof.
+  intro Hwm.
   constructor; cbn [toy_dec c_step c_reset c_mid].
   - (* bounds *)
-    intros st fed del inp cap fl (Hs & _ & _). cbv zeta.
-    destruct (toy_dec_facts st inp cap fl Hs) as (c & o & t & stop & ph' & s' & E & L1 & L2 & _ & _ & _ & ->).
+    intros st fed del inp cap fl (Hs & Hst & _ & _). cbv zeta.
+    destruct (toy_dec_facts st inp cap fl Hs Hst) as (c & o & t & stop & ph' & s' & E & L1 & L2 & _ & _ & _ & _ & _ & ->).
     cbn [l_cons l_out]. pose proof (lim_le (d_maxin st) (length inp)). pose proof (lim_le (d_maxout st) cap). lia.
   - (* step *)
-    intros st fed del inp cap fl (Hs & Hm & HT). cbv zeta.
-    destruct (toy_dec_facts st inp cap fl Hs) as (c & o & t & stop & ph' & s' & E & L1 & L2 & Hs' & HP & _ & ->).
+    intros st fed del inp cap fl (Hs & Hst & Hm & HT). cbv zeta.
+    destruct (toy_dec_facts st inp cap fl Hs Hst) as (c & o & t & stop & ph' & s' & E & L1 & L2 & Hs' & HP & _ & Hst' & _ & ->).
     cbn [l_cons l_out l_stat l_st]. intro Hok. apply stat_more in Hok. subst stop. cbn [Post] in HP.
     rewrite E, firstn_app_exact.
-    split; [assumption|]. split; [now apply mid_step|]. cbn [d_ph d_sum]. eapply T_trans; eauto.
+    split; [assumption|]. split; [cbn [d_ph]; auto|]. split; [intro W; cbn [d_mid]; apply mid_step; auto|].
+    cbn [d_ph d_sum]. eapply T_trans; eauto.
   - (* end *)
-    intros st fed del inp cap fl (Hs & Hm & HT). cbv zeta.
-    destruct (toy_dec_facts st inp cap fl Hs) as (c & o & t & stop & ph' & s' & E & L1 & L2 & Hs' & HP & _ & ->).
+    intros st fed del inp cap fl (Hs & Hst & Hm & HT). cbv zeta.
+    destruct (toy_dec_facts st inp cap fl Hs Hst) as (c & o & t & stop & ph' & s' & E & L1 & L2 & Hs' & HP & _ & _ & _ & ->).
     cbn [l_cons l_out l_stat l_st]. intro Hend.
     destruct stop; cbn [stat_of] in Hend; try discriminate.
     { destruct (_ || _); discriminate. }
     cbn [Post] in HP. destruct HP as (HR & -> & ->).
     rewrite E, firstn_app_exact. split.
     + unfold TMember. eapply T_rest; eauto.
-    + unfold after_end, TRep. cbn [c_reset toy_dec]. unfold toy_dec_reset. cbn [d_sum d_mid d_ph].
-      split; [lia|]. split; [split; [discriminate|congruence]|]. apply T_refl.
+    + unfold after_end, TRepG. destruct resets.
+      * cbn [c_reset toy_dec]. unfold toy_dec_reset. cbn [d_sum d_mid d_ph].
+        split; [lia|]. split; [reflexivity|]. split; [intros _; split; [discriminate|congruence]|]. apply T_refl.
+      * cbn [d_sum d_mid d_ph].
+        split; [lia|]. split; [reflexivity|]. split; [intro W; specialize (Hwm W); discriminate|]. apply T_refl.
   - (* progress *)
-    intros st fed del inp cap fl (Hs & Hm & HT). cbv zeta.
-    destruct (toy_dec_facts st inp cap fl Hs) as (c & o & t & stop & ph' & s' & E & L1 & L2 & Hs' & HP & HL & ->).
+    intros st fed del inp cap fl (Hs & Hst & Hm & HT). cbv zeta.
+    destruct (toy_dec_facts st inp cap fl Hs Hst) as (c & o & t & stop & ph' & s' & E & L1 & L2 & Hs' & HP & HL & _ & _ & ->).
     cbn [l_cons l_out l_stat l_st]. intros Hi Hc Hok. apply stat_more in Hok. subst stop.
     replace (2 * (length inp + cap) + 4) with (S (2 * (length inp + cap) + 3)) in HL by lia.
     apply dec_progress in HL; try assumption; try lia.
@@ -307,8 +402,8 @@ Proof.
     + apply lim_pos. destruct inp; [congruence|simpl; lia].
     + apply lim_pos. lia.
   - (* buf_stuck *)
-    intros st fed del inp cap fl (Hs & Hm & HT). cbv zeta.
-    destruct (toy_dec_facts st inp cap fl Hs) as (c & o & t & stop & ph' & s' & E & L1 & L2 & Hs' & HP & HL & ->).
+    intros st fed del inp cap fl (Hs & Hst & Hm & HT). cbv zeta.
+    destruct (toy_dec_facts st inp cap fl Hs Hst) as (c & o & t & stop & ph' & s' & E & L1 & L2 & Hs' & HP & HL & _ & _ & ->).
     cbn [l_cons l_out l_stat l_st]. intros Hb Hfl.
     destruct stop; cbn [stat_of] in Hb; try discriminate.
     assert (Hnf : is_full fl = false) by (destruct fl; try reflexivity; congruence).
@@ -317,8 +412,8 @@ Proof.
     apply orb_false_iff in Hp. destruct Hp as [H1 H2].
     apply Nat.ltb_ge in H1. apply negb_false_iff in H2. apply nilb_true in H2. split; [lia|assumption].
   - (* complete *)
-    intros st fed del cap fl p (Hs & Hm & HT) Hmem. cbv zeta.
-    destruct (toy_dec_facts st [] cap fl Hs) as (c & o & t & stop & ph' & s' & E & L1 & L2 & Hs' & HP & HL & ->).
+    intros st fed del cap fl p (Hs & Hst & Hm & HT) Hmem. cbv zeta.
+    destruct (toy_dec_facts st [] cap fl Hs Hst) as (c & o & t & stop & ph' & s' & E & L1 & L2 & Hs' & HP & HL & _ & _ & ->).
     cbn [l_cons l_out l_stat l_st]. intros Hc Hok. apply stat_more in Hok. subst stop.
     unfold TMember in Hmem. rewrite <- (app_nil_r fed) in Hmem. apply HT in Hmem.
     destruct Hmem as (p' & -> & Hrest). apply rest_nil_inv in Hrest. destruct Hrest as (k & b & Eph & ->).
@@ -331,17 +426,16 @@ Proof.
     rewrite app_length, repeat_length, rev_length in HL. simpl in HL.
     intro Eo. subst o. simpl in HL. lia.
   - (* prefix *)
-    intros st fed del x p (Hs & Hm & HT) Hmem. apply HT in Hmem. destruct Hmem as (p' & -> & _). apply prefix_app.
+    intros st fed del x p (Hs & Hst & Hm & HT) Hmem. apply HT in Hmem. destruct Hmem as (p' & -> & _). apply prefix_app.
   - (* nil *)
-    intros st del (Hs & Hm & HT).
-    destruct (m_exists _ toy_format_ok) as (z & p & Hz).
+    intros st del (Hs & Hst & Hm & HT).
     assert (Hempty : TMember [167%N; 0%N; 0%N] []).
     { unfold TMember. apply R_magic; [reflexivity|]. apply R_tag_end; [reflexivity|]. apply R_chk. reflexivity. }
     apply (HT [167%N; 0%N; 0%N] []) in Hempty. destruct Hempty as (p' & E & _).
     symmetry in E. apply app_eq_nil in E. tauto.
   - (* err *)
-    intros st fed del inp cap fl (Hs & Hm & HT). cbv zeta.
-    destruct (toy_dec_facts st inp cap fl Hs) as (c & o & t & stop & ph' & s' & E & L1 & L2 & Hs' & HP & HL & ->).
+    intros st fed del inp cap fl (Hs & Hst & Hm & HT). cbv zeta.
+    destruct (toy_dec_facts st inp cap fl Hs Hst) as (c & o & t & stop & ph' & s' & E & L1 & L2 & Hs' & HP & HL & _ & _ & ->).
     cbn [l_cons l_out l_stat l_st]. intro Herr.
     destruct stop; cbn [stat_of] in Herr; try discriminate.
     { destruct (_ || _); discriminate. }
@@ -349,22 +443,27 @@ Proof.
     intros m p Hmem Hcmp.
     pose proof (T_bad _ _ _ _ _ _ _ HT HP) as HB.
     apply (HB m p Hmem).
-    (* fed ++ c is comparable with m because fed ++ inp is *)
     rewrite E in Hcmp. destruct Hcmp as [[u Eu]|[u Eu]].
     + left. exists (t ++ u). rewrite Eu. now rewrite <- !app_assoc.
     + eapply app_eq_comparable. rewrite app_assoc in Eu. exact Eu.
   - (* no_overrun *)
-    intros st fed del m p (Hs & Hm & HT) Hmem [y ->].
+    intros st fed del m p (Hs & Hst & Hm & HT) Hmem [y ->].
     destruct (live (d_ph st) (d_sum st)) as (z0 & p0 & H0).
     pose proof (T_rest _ _ _ _ _ _ _ _ HT H0) as Hfull. rewrite <- app_assoc in Hfull.
     destruct (Rest_det _ _ _ _ Hmem _ _ Hfull) as [Ey _].
     apply app_eq_nil in Ey. destruct Ey as [-> _]. now rewrite app_nil_r.
 Qed.
 
-Lemma toy_dec_okp : ok_progresses tdst toy_dec TRep.
+Theorem toy_dec_contract : dec_contract TMember tdst toy_dec TRep true.
+Proof. apply toy_dec_contract_g. auto. Qed.
+
+Theorem toy_dec_contract0 : dec_contract TMember tdst toy_dec TRep0 false.
+Proof. apply toy_dec_contract_g. discriminate. Qed.
+
+Lemma toy_dec_okp wm : ok_progresses tdst toy_dec (TRepG wm).
 Proof.
-  intros st fed del inp cap fl (Hs & Hm & HT). cbn [toy_dec c_step].
-  destruct (toy_dec_facts st inp cap fl Hs) as (c & o & t & stop & ph' & s' & E & L1 & L2 & Hs' & HP & HL & ->).
+  intros st fed del inp cap fl (Hs & Hst & Hm & HT). cbn [toy_dec c_step].
+  destruct (toy_dec_facts st inp cap fl Hs Hst) as (c & o & t & stop & ph' & s' & E & L1 & L2 & Hs' & HP & HL & _ & _ & ->).
   cbn [l_cons l_out l_stat]. intro Hok.
   destruct stop; cbn [stat_of] in Hok; try discriminate.
   destruct ((0 <? length c) || negb (nilb o)) eqn:Hp; [|discriminate].
@@ -374,9 +473,23 @@ Proof.
 Qed.
 
 Lemma toy_dec_mid : mid_ok tdst toy_dec TRep.
-Proof. intros st fed del (Hs & Hm & HT). exact Hm. Qed.
+Proof. intros st fed del (Hs & Hst & Hm & HT). apply Hm. reflexivity. Qed.
 
-Lemma toy_dec_init_rep maxin maxout finbuf : TRep (toy_dec_init maxin maxout finbuf) [] [].
+(* the toy reports the end of a member only from a call that did something (like libzstd) *)
+Lemma toy_dec_endp wm : forall st fed del inp cap fl, TRepG wm st fed del ->
+  let r := c_step toy_dec st inp cap fl in
+  l_stat r = LEnd -> 0 < l_cons r + length (l_out r).
 Proof.
-  unfold TRep, toy_dec_init. cbn. split; [lia|]. split; [split; [discriminate|congruence]|]. apply T_refl.
+  intros st fed del inp cap fl (Hs & Hst & Hm & HT). cbn [toy_dec c_step].
+  destruct (toy_dec_facts st inp cap fl Hs Hst) as (c & o & t & stop & ph' & s' & E & L1 & L2 & Hs' & HP & HL & _ & HE & ->).
+  cbn [l_cons l_out l_stat]. intro Hend.
+  destruct stop; cbn [stat_of] in Hend; try discriminate.
+  - destruct (_ || _); discriminate.
+  - auto.
+Qed.
+
+Lemma toy_dec_init_rep wm maxin maxout finbuf : TRepG wm (toy_dec_init maxin maxout finbuf) [] [].
+Proof.
+  unfold TRepG, toy_dec_init. cbn. split; [lia|]. split; [reflexivity|].
+  split; [intros _; split; [discriminate|congruence]|]. apply T_refl.
 Qed.
